@@ -151,7 +151,19 @@ def jEvent (j : Json) : E Event := do
         let segs ← jStrList (← f.getArrVal? 0)
         let v ← jValue (← f.getArrVal? 1)
         pure (segs, v))
-  pure { source := source, id := id, get := fun segs => fields.lookup segs }
+  pure (Gene.Props.Refine.eventOfFields source id fields)
+
+/-- are the numbers of the event's fields within their Rust types? (the last hypothesis of `checked_refines_event`) -/
+def jEventWf (j : Json) : E Bool := do
+  let fields ← match jOpt j "fields" with
+    | none => pure []
+    | some a => do
+      let a ← a.getArr?
+      a.toList.mapM (fun f => do
+        let segs ← jStrList (← f.getArrVal? 0)
+        let v ← jValue (← f.getArrVal? 1)
+        pure (segs, v))
+  pure (Gene.Props.Refine.fieldsWfB fields)
 
 def jRType (s : String) : E RType :=
   match s with
@@ -895,11 +907,12 @@ def handle (j : Json) : E Json := do
         | none =>
           let en := (sr.filter (fun p => !p.2)).map Prod.fst
           Json.mkObj [("scans", Json.arr (events.map (fun ev => specOutJson (S.scan x ev en))).toArray)]
-      -- the hypothesis of the refinement theorem, decided per event (Gene/Props/RelCheck.lean: `checked_refines`)
+      -- the hypotheses of the refinement theorem, decided per event (Gene/Props/RelCheck.lean: `checked_refines_event`)
+      let wfs ← (← (← j.getObjVal? "events").getArr?).toList.mapM jEventWf
       let rel : Json := match modelEngine x tdocs rules with
         | some eng =>
           let en := (sr.filter (fun p => !p.2)).map Prod.fst
-          Json.arr (events.map (fun ev => Json.bool (Gene.Props.Refine.rulesRelB x ev en eng.rules))).toArray
+          Json.arr ((events.zip wfs).map (fun (ev, wf) => Json.bool (wf && Gene.Props.Refine.rulesRelB x ev en eng.rules))).toArray
         | none => Json.null
       pure (Json.mkObj [("model", model), ("spec", spec), ("rel", rel)])
     else pure (Json.mkObj [("model", model)])
